@@ -12,6 +12,17 @@
 //! * `kk <k> <ids|loads> <n> <w…> <m> <p…>`
 //!   out: `ok ids <ids>` | `ok loads <part loads, ascending>` | `lenmismatch` | `panic …` | `err …`
 //!
+//! In `greedy f64` and in `kkr` (KarmarkarKarp on `coupe::Real`, the float weight type the tools
+//! use; same integer values) a weight written `-0` is the float -0.0; the model reads it as 0.
+//!
+//! Ops with at most 200 weights are repeated through every input type the `Partition` impls
+//! accept (slices, arrays, deques, iterator adaptors, inexact `size_hint`s for Greedy; other
+//! weight types where all sums stay exact), through the tools entry point
+//! `coupe_tools::parse_algorithm`, from inside a rayon task and as 8 / 32 concurrent calls on
+//! pools of 4 / 16 workers, with +0.0 in place of -0.0, and (inexact `f64` ops) scaled by an exact
+//! power of two: ids must not change (`input-type-dependent@…`, `tools-dependent@…`,
+//! `context-dependent@…`, `negzero-dependent@…`, `scale-dependent@greedy`).
+//!
 //! Every op with matching lengths is run a second time on REUSED objects (an algorithm value that
 //! already served another input, an id array left by a run with more parts) and, for 4096
 //! weights or more, inside rayon pools of two different sizes: the answers must be identical.
@@ -27,8 +38,11 @@
 //! on the others.  `run_op` obeys the `cmp` field of the line.
 
 use crate::common::*;
+use coupe::rayon::prelude::*;
 use coupe::Partition as _;
-use std::collections::BinaryHeap;
+use std::collections::{BinaryHeap, VecDeque};
+use std::panic::AssertUnwindSafe;
+use std::sync::OnceLock;
 
 /// usual initial filler of the id array: a cell the algorithm did not write stays visible, and
 /// `1 - partition[a]` on such a cell overflows (overflow checks are on)
@@ -37,9 +51,10 @@ const FILL: usize = usize::MAX;
 // ------------------------------------------------------------------ protocol
 
 enum Op {
-    Greedy { float: bool, k: usize, ws: Vec<i64>, p: Vec<usize> },
+    /// `negz[i]`: weight `i` was written `-0` (-0.0 in the float runs)
+    Greedy { float: bool, k: usize, ws: Vec<i64>, negz: Vec<bool>, p: Vec<usize> },
     GreedyF { k: usize, ws: Vec<f64>, p: Vec<usize> },
-    Kk { k: usize, loads: bool, ws: Vec<i64>, p: Vec<usize> },
+    Kk { real: bool, k: usize, loads: bool, ws: Vec<i64>, negz: Vec<bool>, p: Vec<usize> },
 }
 
 fn fmt_arrays(ws: &[i64], p: &[usize]) -> String {
@@ -64,6 +79,24 @@ fn kk_op(k: usize, loads: bool, ws: &[i64], p: &[usize]) -> String {
     format!("kk {} {} {}", k, if loads { "loads" } else { "ids" }, fmt_arrays(ws, p))
 }
 
+/// Like `fmt_arrays`, with `-0` for the weights flagged in `negz` (which must be 0).
+fn fmt_arrays_nz(ws: &[i64], negz: &[bool], p: &[usize]) -> String {
+    let mut s = format!("{}", ws.len());
+    for (i, w) in ws.iter().enumerate() {
+        if negz.get(i).copied().unwrap_or(false) && *w == 0 {
+            s.push_str(" -0");
+        } else {
+            s.push_str(&format!(" {}", w));
+        }
+    }
+    s.push_str(&format!(" {}", p.len()));
+    if !p.is_empty() {
+        s.push(' ');
+        s.push_str(&join(p));
+    }
+    s
+}
+
 fn greedyf_op(k: usize, ws: &[f64], p: &[usize]) -> String {
     let mut s = format!("greedyf {} {}", k, ws.len());
     for w in ws {
@@ -77,11 +110,14 @@ fn greedyf_op(k: usize, ws: &[f64], p: &[usize]) -> String {
     s
 }
 
-fn parse_arrays<'a>(it: &mut impl Iterator<Item = &'a str>) -> Option<(Vec<i64>, Vec<usize>)> {
+fn parse_arrays<'a>(it: &mut impl Iterator<Item = &'a str>) -> Option<(Vec<i64>, Vec<bool>, Vec<usize>)> {
     let n: usize = it.next()?.parse().ok()?;
     let mut ws = Vec::with_capacity(n.min(1 << 16));
+    let mut negz = Vec::with_capacity(n.min(1 << 16));
     for _ in 0..n {
-        ws.push(it.next()?.parse().ok()?);
+        let t = it.next()?;
+        negz.push(t == "-0");
+        ws.push(t.parse().ok()?);
     }
     let m: usize = it.next()?.parse().ok()?;
     let mut p = Vec::with_capacity(m.min(1 << 16));
@@ -92,7 +128,7 @@ fn parse_arrays<'a>(it: &mut impl Iterator<Item = &'a str>) -> Option<(Vec<i64>,
     if it.next().is_some() {
         return None;
     }
-    Some((ws, p))
+    Some((ws, negz, p))
 }
 
 fn parse_op(op: &str) -> Option<Op> {
@@ -105,11 +141,11 @@ fn parse_op(op: &str) -> Option<Op> {
                 _ => return None,
             };
             let k: usize = it.next()?.parse().ok()?;
-            let (ws, p) = parse_arrays(&mut it)?;
+            let (ws, negz, p) = parse_arrays(&mut it)?;
             if float && ws.iter().any(|w| w.unsigned_abs() >= 1 << 53) {
                 return None;
             }
-            Some(Op::Greedy { float, k, ws, p })
+            Some(Op::Greedy { float, k, ws, negz, p })
         }
         "greedyf" => {
             let k: usize = it.next()?.parse().ok()?;
@@ -133,15 +169,19 @@ fn parse_op(op: &str) -> Option<Op> {
             }
             Some(Op::GreedyF { k, ws, p })
         }
-        "kk" => {
+        name @ ("kk" | "kkr") => {
+            let real = name == "kkr";
             let k: usize = it.next()?.parse().ok()?;
             let loads = match it.next()? {
                 "ids" => false,
                 "loads" => true,
                 _ => return None,
             };
-            let (ws, p) = parse_arrays(&mut it)?;
-            Some(Op::Kk { k, loads, ws, p })
+            let (ws, negz, p) = parse_arrays(&mut it)?;
+            if real && ws.iter().any(|w| w.unsigned_abs() >= 1 << 53) {
+                return None;
+            }
+            Some(Op::Kk { real, k, loads, ws, negz, p })
         }
         _ => None,
     }
@@ -284,6 +324,8 @@ struct Ran {
     reused: bool,
     /// pool sizes used (large cases only)
     pools: Option<(usize, usize)>,
+    /// count keys of the extra comparisons made (`plumbing:…`, `context:…`, `special:…`)
+    counts: Vec<String>,
 }
 
 pub fn run_op(ctx: &mut Ctx, op: &str) {
@@ -295,10 +337,13 @@ pub fn run_op(ctx: &mut Ctx, op: &str) {
         return;
     };
     let r = match parsed {
-        Op::Greedy { float, k, ws, p } => run_greedy(float, k, &ws, &p),
-        Op::GreedyF { k, ws, p } => run_greedyf(k, &ws, &p),
-        Op::Kk { k, loads, ws, p } => run_kk(k, loads, &ws, &p),
+        Op::Greedy { float, k, ws, negz, p } => run_greedy(float, k, &ws, &negz, &p, op),
+        Op::GreedyF { k, ws, p } => run_greedyf(k, &ws, &p, op),
+        Op::Kk { real, k, loads, ws, negz, p } => run_kk(real, k, loads, &ws, &negz, &p, op),
     };
+    for c in &r.counts {
+        ctx.count(c);
+    }
     let kind = if op.starts_with("greedy") { "greedy" } else { "kk" };
     ctx.count(&format!("out_{}_{}", kind, r.out.split(' ').next().unwrap_or("")));
     if r.reused {
@@ -395,6 +440,292 @@ fn other_i64(ws: &[i64]) -> Vec<i64> {
     ws.iter().rev().map(|w| w / 2 + 1).collect()
 }
 
+// ------------------------------------------------------------------ input types, tools, context
+
+/// Ops up to this many weights (and array cells) get the input-type / tools / context variants.
+const SMALL: usize = 200;
+
+/// The reference run of an op (fresh objects, `Vec` input, caller's thread).
+struct Fresh<'a> {
+    /// `res_class` / `coarse` of the reference outcome
+    class: String,
+    coarse: &'static str,
+    ids: &'a [usize],
+    p0: &'a [usize],
+}
+
+#[derive(Default)]
+struct Extras {
+    counts: Vec<String>,
+    fail: Verdict,
+}
+
+impl Extras {
+    fn note(&mut self, key: &str, sig: &'static str, d: Option<String>) {
+        self.counts.push(key.to_string());
+        if let Some(d) = d {
+            if self.fail.is_none() {
+                self.fail = Some((sig, format!("{}: {}", key, d)));
+            }
+        }
+    }
+}
+
+fn first_diff(a: &[usize], b: &[usize]) -> String {
+    let i = a.iter().zip(b).position(|(x, y)| x != y).unwrap_or(a.len().min(b.len()));
+    format!(
+        "ids differ at index {} (reference {:?}, variant {:?})",
+        i,
+        a.get(i),
+        b.get(i)
+    )
+}
+
+/// Run a variant of the reference call (another input type, weight type, …) on a copy of the
+/// initial array: same outcome and same array contents expected.
+fn check_variant(fr: &Fresh, f: impl FnOnce(&mut [usize]) -> Res) -> Option<String> {
+    let mut buf = fr.p0.to_vec();
+    let r: Caught<Res> = catch(|| f(&mut buf));
+    let b = res_class(&r);
+    if fr.class != b {
+        return Some(format!("reference run: {} / variant: {}", fr.class, b));
+    }
+    if buf != fr.ids {
+        return Some(first_diff(fr.ids, &buf));
+    }
+    None
+}
+
+fn coarse(r: &Caught<Res>) -> &'static str {
+    match r {
+        Caught::Ok(Ok(())) => "ok",
+        Caught::Ok(Err(_)) => "err",
+        Caught::Panic(_) => "panic",
+        Caught::Hang => "hang",
+    }
+}
+
+fn fnv(s: &str) -> u64 {
+    let mut h = 0xcbf2_9ce4_8422_2325u64;
+    for b in s.bytes() {
+        h = (h ^ b as u64).wrapping_mul(0x0000_0100_0000_01b3);
+    }
+    h
+}
+
+const TYPE_GREEDY: &str = "input-type-dependent@greedy";
+const TYPE_KK: &str = "input-type-dependent@kk";
+
+/// Every input type `Greedy::partition` accepts (`W: IntoIterator`, no `ExactSizeIterator`
+/// bound) for the same weights: exact and inexact `size_hint`s.
+fn greedy_plumbing<W>(k: usize, ws: &[W], fr: &Fresh, ex: &mut Extras)
+where
+    W: coupe::GreedyWeight + Copy + Send + Sync,
+{
+    let g = || coupe::Greedy { part_count: k };
+    let h = ws.len() / 2;
+    ex.note("plumbing:slice_iter_copied", TYPE_GREEDY, check_variant(fr, |a| g().partition(a, ws.iter().copied())));
+    ex.note("plumbing:into_iter_map", TYPE_GREEDY, check_variant(fr, |a| g().partition(a, ws.to_vec().into_iter().map(|w| w))));
+    ex.note("plumbing:vecdeque", TYPE_GREEDY, check_variant(fr, |a| g().partition(a, ws.iter().copied().collect::<VecDeque<W>>())));
+    ex.note("plumbing:filter_true", TYPE_GREEDY, check_variant(fr, |a| g().partition(a, ws.iter().copied().filter(|_| true))));
+    ex.note("plumbing:flat_map", TYPE_GREEDY, check_variant(fr, |a| g().partition(a, ws.iter().flat_map(|w| std::iter::once(*w)))));
+    ex.note(
+        "plumbing:from_fn",
+        TYPE_GREEDY,
+        check_variant(fr, |a| {
+            let mut i = 0;
+            g().partition(
+                a,
+                std::iter::from_fn(move || {
+                    let r = ws.get(i).copied();
+                    i += 1;
+                    r
+                }),
+            )
+        }),
+    );
+    ex.note("plumbing:chain", TYPE_GREEDY, check_variant(fr, |a| g().partition(a, ws[..h].iter().copied().chain(ws[h..].iter().copied()))));
+    ex.note("plumbing:rev_rev", TYPE_GREEDY, check_variant(fr, |a| g().partition(a, ws.iter().copied().rev().rev())));
+    match ws.len() {
+        2 => ex.note("plumbing:array", TYPE_GREEDY, check_variant(fr, |a| g().partition(a, <[W; 2]>::try_from(ws).unwrap()))),
+        3 => ex.note("plumbing:array", TYPE_GREEDY, check_variant(fr, |a| g().partition(a, <[W; 3]>::try_from(ws).unwrap()))),
+        5 => ex.note("plumbing:array", TYPE_GREEDY, check_variant(fr, |a| g().partition(a, <[W; 5]>::try_from(ws).unwrap()))),
+        _ => {}
+    }
+}
+
+/// The input types `KarmarkarKarp::partition` accepts (`ExactSizeIterator` required).
+fn kk_plumbing<W>(k: usize, ws: &[W], fr: &Fresh, ex: &mut Extras)
+where
+    W: coupe::KkWeight + Send + Sync,
+{
+    let g = || coupe::KarmarkarKarp { part_count: k };
+    ex.note("plumbing:slice_iter_copied", TYPE_KK, check_variant(fr, |a| g().partition(a, ws.iter().copied())));
+    ex.note("plumbing:into_iter_map", TYPE_KK, check_variant(fr, |a| g().partition(a, ws.to_vec().into_iter().map(|w| w))));
+    ex.note("plumbing:vecdeque", TYPE_KK, check_variant(fr, |a| g().partition(a, ws.iter().copied().collect::<VecDeque<W>>())));
+    ex.note("plumbing:rev_rev", TYPE_KK, check_variant(fr, |a| g().partition(a, ws.iter().copied().rev().rev())));
+    ex.note("plumbing:slice_iter_cloned", TYPE_KK, check_variant(fr, |a| g().partition(a, ws.iter().cloned())));
+    match ws.len() {
+        2 => ex.note("plumbing:array", TYPE_KK, check_variant(fr, |a| g().partition(a, <[W; 2]>::try_from(ws).unwrap()))),
+        3 => ex.note("plumbing:array", TYPE_KK, check_variant(fr, |a| g().partition(a, <[W; 3]>::try_from(ws).unwrap()))),
+        5 => ex.note("plumbing:array", TYPE_KK, check_variant(fr, |a| g().partition(a, <[W; 5]>::try_from(ws).unwrap()))),
+        _ => {}
+    }
+}
+
+/// Sum of the absolute values (every partial sum either algorithm can form is bounded by it).
+fn abs_total(ws: &[i64]) -> u128 {
+    ws.iter().map(|w| w.unsigned_abs() as u128).sum()
+}
+
+/// Other weight types the bounds admit, where the values fit and every sum stays exact: the ids
+/// must be the ones of the reference run.  `float_ref`: the reference ran on floats.
+fn greedy_types(k: usize, ws: &[i64], float_ref: bool, fr: &Fresh, ex: &mut Extras) {
+    let g = || coupe::Greedy { part_count: k };
+    let t = abs_total(ws);
+    let nonneg = ws.iter().all(|&w| w >= 0);
+    if t < 1 << 31 {
+        ex.note("plumbing:weight_i32", TYPE_GREEDY, check_variant(fr, |a| g().partition(a, ws.iter().map(|&w| w as i32).collect::<Vec<i32>>())));
+    }
+    if nonneg {
+        ex.note("plumbing:weight_u64", TYPE_GREEDY, check_variant(fr, |a| g().partition(a, ws.iter().map(|&w| w as u64).collect::<Vec<u64>>())));
+        if t < 1 << 32 {
+            ex.note("plumbing:weight_u32", TYPE_GREEDY, check_variant(fr, |a| g().partition(a, ws.iter().map(|&w| w as u32).collect::<Vec<u32>>())));
+        }
+    }
+    if t < 1 << 24 {
+        ex.note("plumbing:weight_f32", TYPE_GREEDY, check_variant(fr, |a| g().partition(a, ws.iter().map(|&w| w as f32).collect::<Vec<f32>>())));
+    }
+    if t < 1 << 53 {
+        if float_ref {
+            ex.note("plumbing:weight_i64", TYPE_GREEDY, check_variant(fr, |a| g().partition(a, ws.to_vec())));
+        } else {
+            ex.note("plumbing:weight_f64", TYPE_GREEDY, check_variant(fr, |a| g().partition(a, ws.iter().map(|&w| w as f64).collect::<Vec<f64>>())));
+        }
+    }
+}
+
+fn kk_types(k: usize, ws: &[i64], real_ref: bool, fr: &Fresh, ex: &mut Extras) {
+    let g = || coupe::KarmarkarKarp { part_count: k };
+    let t = abs_total(ws);
+    let nonneg = ws.iter().all(|&w| w >= 0);
+    if t < 1 << 31 {
+        ex.note("plumbing:weight_i32", TYPE_KK, check_variant(fr, |a| g().partition(a, ws.iter().map(|&w| w as i32).collect::<Vec<i32>>())));
+    }
+    if nonneg {
+        ex.note("plumbing:weight_u64", TYPE_KK, check_variant(fr, |a| g().partition(a, ws.iter().map(|&w| w as u64).collect::<Vec<u64>>())));
+        if t < 1 << 32 {
+            ex.note("plumbing:weight_u32", TYPE_KK, check_variant(fr, |a| g().partition(a, ws.iter().map(|&w| w as u32).collect::<Vec<u32>>())));
+        }
+    }
+    if t < 1 << 53 {
+        if real_ref {
+            ex.note("plumbing:weight_i64", TYPE_KK, check_variant(fr, |a| g().partition(a, ws.to_vec())));
+        } else {
+            ex.note("plumbing:weight_real", TYPE_KK, check_variant(fr, |a| g().partition(a, ws.iter().map(|&w| coupe::Real::from(w as f64)).collect::<Vec<coupe::Real>>())));
+        }
+    }
+}
+
+/// The tools entry point: `coupe_tools::parse_algorithm("<name>,<k>")` on a mesh-less problem
+/// carrying the same weights (one criterion), run on a copy of the initial array.
+fn check_tools(spec: &str, weights: mesh_io::weight::Array, fr: &Fresh) -> Option<String> {
+    let mut buf = fr.p0.to_vec();
+    let r: Caught<Result<(), String>> = catch(|| {
+        let mut algo = coupe_tools::parse_algorithm::<2>(spec).map_err(|e| format!("{:#}", e))?;
+        let problem = coupe_tools::Problem::<2>::without_mesh(weights);
+        let mut runner = algo.to_runner(&problem);
+        runner(&mut buf).map(|_| ()).map_err(|e| format!("{:#}", e))
+    });
+    let tools = match &r {
+        Caught::Ok(Ok(())) => "ok",
+        Caught::Ok(Err(_)) => "err",
+        Caught::Panic(_) => "panic",
+        Caught::Hang => "hang",
+    };
+    if tools != fr.coarse {
+        let detail = match r {
+            Caught::Ok(Err(e)) => e,
+            Caught::Panic(m) => m,
+            _ => String::new(),
+        };
+        return Some(format!("library: {} / tools: {} {}", fr.class, tools, detail));
+    }
+    if buf != fr.ids {
+        return Some(first_diff(fr.ids, &buf));
+    }
+    None
+}
+
+fn static_pool(cell: &'static OnceLock<coupe::rayon::ThreadPool>, threads: usize) -> &'static coupe::rayon::ThreadPool {
+    cell.get_or_init(|| coupe::rayon::ThreadPoolBuilder::new().num_threads(threads).build().expect("pool"))
+}
+
+static POOL4: OnceLock<coupe::rayon::ThreadPool> = OnceLock::new();
+static POOL16: OnceLock<coupe::rayon::ThreadPool> = OnceLock::new();
+
+/// Calling context: the same call from inside a rayon task, and as many calls at once
+/// (8 on a pool of 4 workers, 32 on a pool of 16; every other call works on another input so
+/// that different inputs interleave on the same worker threads).  `call` is the reference call,
+/// `call_other` the same algorithm on another input of the same length.
+fn context_checks(
+    sig: &'static str,
+    fr: &Fresh,
+    call: &(dyn Fn(&mut [usize]) -> Res + Sync),
+    call_other: &(dyn Fn(&mut [usize]) -> Res + Sync),
+    ex: &mut Extras,
+) {
+    let want = fr.coarse;
+    let run_one = |f: &(dyn Fn(&mut [usize]) -> Res + Sync)| -> (&'static str, Vec<usize>) {
+        let mut b = fr.p0.to_vec();
+        let r = std::panic::catch_unwind(AssertUnwindSafe(|| f(&mut b)));
+        let c = match r {
+            Ok(Ok(())) => "ok",
+            Ok(Err(_)) => "err",
+            Err(_) => "panic",
+        };
+        (c, b)
+    };
+    let judge = |c: &'static str, b: &[usize]| -> Option<String> {
+        if c != want {
+            Some(format!("reference run: {} / here: {}", want, c))
+        } else if b != fr.ids {
+            Some(first_diff(fr.ids, b))
+        } else {
+            None
+        }
+    };
+    // (c) from inside a task spawned in a pool
+    let p4 = static_pool(&POOL4, 4);
+    let mut got = None;
+    p4.install(|| {
+        coupe::rayon::scope(|s| {
+            s.spawn(|_| got = Some(run_one(call)));
+        })
+    });
+    let (c, b) = got.expect("task ran");
+    ex.note("context:inside_task", sig, judge(c, &b));
+    // (d) many calls at once
+    for (pool, calls, key) in [(p4, 8usize, "context:concurrent_8_on_4"), (static_pool(&POOL16, 16), 32, "context:concurrent_32_on_16")] {
+        let results: Vec<(usize, &'static str, Vec<usize>)> = pool.install(|| {
+            (0..calls)
+                .into_par_iter()
+                .map(|i| {
+                    let (c, b) = if i % 2 == 0 { run_one(call) } else { run_one(call_other) };
+                    (i, c, b)
+                })
+                .collect()
+        });
+        let mut d = None;
+        for (i, c, b) in &results {
+            if i % 2 == 0 && d.is_none() {
+                d = judge(c, b).map(|m| format!("concurrent call #{}: {}", i, m));
+            }
+        }
+        ex.note(key, sig, d);
+    }
+}
+
 fn greedy_fresh<W: coupe::GreedyWeight>(k: usize, a: &mut [usize], w: Vec<W>) -> Res {
     coupe::Greedy { part_count: k }.partition(a, w)
 }
@@ -411,11 +742,11 @@ fn greedy_twice<W: coupe::GreedyWeight>(
     alg.partition(a2, w2)
 }
 
-fn kk_fresh(k: usize, a: &mut [usize], w: Vec<i64>) -> Res {
+fn kk_fresh<W: coupe::KkWeight>(k: usize, a: &mut [usize], w: Vec<W>) -> Res {
     coupe::KarmarkarKarp { part_count: k }.partition(a, w)
 }
 
-fn kk_twice(k: usize, a1: &mut [usize], w1: Vec<i64>, a2: &mut [usize], w2: Vec<i64>) -> Res {
+fn kk_twice<W: coupe::KkWeight>(k: usize, a1: &mut [usize], w1: Vec<W>, a2: &mut [usize], w2: Vec<W>) -> Res {
     let mut alg = coupe::KarmarkarKarp { part_count: k };
     let _ = alg.partition(a1, w1);
     alg.partition(a2, w2)
@@ -450,11 +781,23 @@ fn other_outcome(algo: &str, res: Caught<Res>, lens_match: bool) -> (String, Ver
     }
 }
 
-fn run_greedy(float: bool, k: usize, ws: &[i64], p0: &[usize]) -> Ran {
+fn to_f64_nz(ws: &[i64], negz: &[bool]) -> Vec<f64> {
+    ws.iter()
+        .enumerate()
+        .map(|(i, &w)| if w == 0 && negz.get(i).copied().unwrap_or(false) { -0.0 } else { w as f64 })
+        .collect()
+}
+
+fn negz_key(negz: &[bool]) -> String {
+    let c = negz.iter().filter(|&&b| b).count();
+    format!("special:negzero_{}", if c % 2 == 1 { "odd_count" } else { "even_count" })
+}
+
+fn run_greedy(float: bool, k: usize, ws: &[i64], negz: &[bool], p0: &[usize], op: &str) -> Ran {
     let lens_match = ws.len() == p0.len();
     let pools = if lens_match { pools_for(ws.len(), k) } else { None };
     let mut p = p0.to_vec();
-    let wf: Vec<f64> = if float { ws.iter().map(|&w| w as f64).collect() } else { vec![] };
+    let wf: Vec<f64> = if float { to_f64_nz(ws, negz) } else { vec![] };
     let res: Caught<Res> = in_pool(pools.map(|t| t.0), || {
         if float {
             catch(|| greedy_fresh(k, &mut p, wf.clone()))
@@ -476,6 +819,7 @@ fn run_greedy(float: bool, k: usize, ws: &[i64], p0: &[usize]) -> Ran {
             reuse_verdict = Some(("greedy-reuse-differs", d));
         }
     }
+    let (fresh_class, fresh_coarse) = (res_class(&res), coarse(&res));
     let (out, verdict): (String, Verdict) = match res {
         Caught::Ok(Ok(())) => {
             let mut v = None;
@@ -508,7 +852,39 @@ fn run_greedy(float: bool, k: usize, ws: &[i64], p0: &[usize]) -> Ran {
         }
         r => other_outcome("greedy", r, lens_match),
     };
-    Ran { out, verdict: verdict.or(reuse_verdict), nontrivial, reused: lens_match, pools }
+    // input types, weight types, tools, context, signed zero (small ops only)
+    let mut ex = Extras::default();
+    if ws.len() <= SMALL && p0.len() <= SMALL {
+        {
+            let fr = Fresh { class: fresh_class, coarse: fresh_coarse, ids: &p, p0 };
+            if float {
+                greedy_plumbing::<f64>(k, &wf, &fr, &mut ex);
+            } else {
+                greedy_plumbing::<i64>(k, ws, &fr, &mut ex);
+            }
+            greedy_types(k, ws, float, &fr, &mut ex);
+            if float && negz.iter().any(|&b| b) {
+                let plus: Vec<f64> = ws.iter().map(|&w| w as f64).collect();
+                ex.note(&negz_key(negz), "negzero-dependent@greedy", check_variant(&fr, |a| greedy_fresh(k, a, plus.clone())));
+            }
+            let arr = if float {
+                mesh_io::weight::Array::Floats(wf.iter().map(|&w| vec![w]).collect())
+            } else {
+                mesh_io::weight::Array::Integers(ws.iter().map(|&w| vec![w]).collect())
+            };
+            ex.note("plumbing:tools_parse_algorithm", "tools-dependent@greedy", check_tools(&format!("greedy,{}", k), arr, &fr));
+            if fnv(op) % 4 == 0 {
+                let other = other_i64(ws);
+                if float {
+                    let of: Vec<f64> = other.iter().map(|&w| w as f64).collect();
+                    context_checks("context-dependent@greedy", &fr, &|a| greedy_fresh(k, a, wf.clone()), &|a| greedy_fresh(k, a, of.clone()), &mut ex);
+                } else {
+                    context_checks("context-dependent@greedy", &fr, &|a| greedy_fresh(k, a, ws.to_vec()), &|a| greedy_fresh(k, a, other.clone()), &mut ex);
+                }
+            }
+        }
+    }
+    Ran { out, verdict: verdict.or(reuse_verdict).or(ex.fail), nontrivial, reused: lens_match, pools, counts: ex.counts }
 }
 
 /// `{:?}` of a slice, shortened (large cases).
@@ -559,7 +935,7 @@ fn part_loads_f64_bits(ws: &[f64], ids: &[usize], k: usize) -> Option<Vec<u64>> 
     Some(bits)
 }
 
-fn run_greedyf(k: usize, ws: &[f64], p0: &[usize]) -> Ran {
+fn run_greedyf(k: usize, ws: &[f64], p0: &[usize], op: &str) -> Ran {
     let lens_match = ws.len() == p0.len();
     let pools = if lens_match { pools_for(ws.len(), k) } else { None };
     let mut p = p0.to_vec();
@@ -572,6 +948,7 @@ fn run_greedyf(k: usize, ws: &[f64], p0: &[usize]) -> Ran {
             reuse_verdict = Some(("greedy-reuse-differs", d));
         }
     }
+    let (fresh_class, fresh_coarse) = (res_class(&res), coarse(&res));
     let (out, verdict): (String, Verdict) = match res {
         Caught::Ok(Ok(())) => {
             let mut v = None;
@@ -604,21 +981,72 @@ fn run_greedyf(k: usize, ws: &[f64], p0: &[usize]) -> Ran {
         }
         r => other_outcome("greedy", r, lens_match),
     };
-    Ran { out, verdict: verdict.or(reuse_verdict), nontrivial, reused: lens_match, pools }
+    let mut ex = Extras::default();
+    if ws.len() <= SMALL && p0.len() <= SMALL {
+        let fr = Fresh { class: fresh_class, coarse: fresh_coarse, ids: &p, p0 };
+        greedy_plumbing::<f64>(k, ws, &fr, &mut ex);
+        // signed zero
+        if ws.iter().any(|w| *w == 0.0 && w.is_sign_negative()) {
+            let negz: Vec<bool> = ws.iter().map(|w| *w == 0.0 && w.is_sign_negative()).collect();
+            let plus: Vec<f64> = ws.iter().map(|w| if *w == 0.0 { 0.0 } else { *w }).collect();
+            ex.note(&negz_key(&negz), "negzero-dependent@greedy", check_variant(&fr, |a| greedy_fresh(k, a, plus.clone())));
+        }
+        // scaling by an exact power of two (into the normal range) must not change any decision:
+        // sums of numbers below 2^-900 scaled up by 2^600, of numbers above 2^900 (and no
+        // positive weight below 2^-300) scaled down by 2^-600 round at the same places
+        let hi = ws.iter().cloned().fold(0.0f64, f64::max);
+        let lo_pos = ws.iter().cloned().filter(|w| *w > 0.0).fold(f64::INFINITY, f64::min);
+        let scale = if hi > 0.0 && hi < 2f64.powi(-900) {
+            Some((2f64.powi(600), "special:scaled_up_2^600"))
+        } else if hi > 2f64.powi(900) && lo_pos > 2f64.powi(-300) {
+            Some((2f64.powi(-600), "special:scaled_down_2^-600"))
+        } else {
+            None
+        };
+        if let Some((f, key)) = scale {
+            let scaled: Vec<f64> = ws.iter().map(|w| w * f).collect();
+            ex.note(key, "scale-dependent@greedy", check_variant(&fr, |a| greedy_fresh(k, a, scaled.clone())));
+        }
+        let arr = mesh_io::weight::Array::Floats(ws.iter().map(|&w| vec![w]).collect());
+        ex.note("plumbing:tools_parse_algorithm", "tools-dependent@greedy", check_tools(&format!("greedy,{}", k), arr, &fr));
+        if fnv(op) % 4 == 0 {
+            let other: Vec<f64> = ws.iter().rev().map(|w| w * 0.5).collect();
+            context_checks("context-dependent@greedy", &fr, &|a| greedy_fresh(k, a, ws.to_vec()), &|a| greedy_fresh(k, a, other.clone()), &mut ex);
+        }
+    }
+    Ran { out, verdict: verdict.or(reuse_verdict).or(ex.fail), nontrivial, reused: lens_match, pools, counts: ex.counts }
 }
 
-fn run_kk(k: usize, cmp_loads: bool, ws: &[i64], p0: &[usize]) -> Ran {
+fn to_real_nz(ws: &[i64], negz: &[bool]) -> Vec<coupe::Real> {
+    to_f64_nz(ws, negz).into_iter().map(coupe::Real::from).collect()
+}
+
+fn run_kk(real: bool, k: usize, cmp_loads: bool, ws: &[i64], negz: &[bool], p0: &[usize], op: &str) -> Ran {
     let lens_match = ws.len() == p0.len();
     let pools = if lens_match { pools_for(ws.len(), k) } else { None };
     let mut p = p0.to_vec();
-    let res: Caught<Res> = in_pool(pools.map(|t| t.0), || catch(|| kk_fresh(k, &mut p, ws.to_vec())));
+    let wr: Vec<coupe::Real> = if real { to_real_nz(ws, negz) } else { vec![] };
+    let res: Caught<Res> = in_pool(pools.map(|t| t.0), || {
+        if real {
+            catch(|| kk_fresh(k, &mut p, wr.clone()))
+        } else {
+            catch(|| kk_fresh(k, &mut p, ws.to_vec()))
+        }
+    });
+    let (fresh_class, fresh_coarse) = (res_class(&res), coarse(&res));
     let n = ws.len();
     let nontrivial = lens_match && n >= 2 && k >= 2;
     let kk1 = k.max(1);
     let mut reuse_verdict: Verdict = None;
     if lens_match {
         let other = other_i64(ws);
-        if let Some(d) = reuse_differs(k, ws, &other, p0, &res, &p, pools.map(|t| t.1), &kk_fresh, &kk_twice) {
+        let d = if real {
+            let or: Vec<coupe::Real> = other.iter().map(|&w| coupe::Real::from(w as f64)).collect();
+            reuse_differs(k, &wr, &or, p0, &res, &p, pools.map(|t| t.1), &kk_fresh::<coupe::Real>, &kk_twice::<coupe::Real>)
+        } else {
+            reuse_differs(k, ws, &other, p0, &res, &p, pools.map(|t| t.1), &kk_fresh::<i64>, &kk_twice::<i64>)
+        };
+        if let Some(d) = d {
             reuse_verdict = Some(("kk-reuse-differs", d));
         }
     }
@@ -679,7 +1107,36 @@ fn run_kk(k: usize, cmp_loads: bool, ws: &[i64], p0: &[usize]) -> Ran {
         }
         r => other_outcome("kk", r, lens_match),
     };
-    Ran { out, verdict: verdict.or(reuse_verdict), nontrivial, reused: lens_match, pools }
+    let mut ex = Extras::default();
+    if ws.len() <= SMALL && p0.len() <= SMALL {
+        let fr = Fresh { class: fresh_class, coarse: fresh_coarse, ids: &p, p0 };
+        if real {
+            kk_plumbing::<coupe::Real>(k, &wr, &fr, &mut ex);
+        } else {
+            kk_plumbing::<i64>(k, ws, &fr, &mut ex);
+        }
+        kk_types(k, ws, real, &fr, &mut ex);
+        if real && negz.iter().any(|&b| b) {
+            let plus: Vec<coupe::Real> = ws.iter().map(|&w| coupe::Real::from(w as f64)).collect();
+            ex.note(&negz_key(negz), "negzero-dependent@kk", check_variant(&fr, |a| kk_fresh(k, a, plus.clone())));
+        }
+        let arr = if real {
+            mesh_io::weight::Array::Floats(to_f64_nz(ws, negz).into_iter().map(|w| vec![w]).collect())
+        } else {
+            mesh_io::weight::Array::Integers(ws.iter().map(|&w| vec![w]).collect())
+        };
+        ex.note("plumbing:tools_parse_algorithm", "tools-dependent@kk", check_tools(&format!("kk,{}", k), arr, &fr));
+        if fnv(op) % 4 == 0 {
+            let other = other_i64(ws);
+            if real {
+                let or: Vec<coupe::Real> = other.iter().map(|&w| coupe::Real::from(w as f64)).collect();
+                context_checks("context-dependent@kk", &fr, &|a| kk_fresh(k, a, wr.clone()), &|a| kk_fresh(k, a, or.clone()), &mut ex);
+            } else {
+                context_checks("context-dependent@kk", &fr, &|a| kk_fresh(k, a, ws.to_vec()), &|a| kk_fresh(k, a, other.clone()), &mut ex);
+            }
+        }
+    }
+    Ran { out, verdict: verdict.or(reuse_verdict).or(ex.fail), nontrivial, reused: lens_match, pools, counts: ex.counts }
 }
 
 // ------------------------------------------------------------------ generator
@@ -757,6 +1214,10 @@ fn initial_array(ctx: &mut Ctx, m: usize) -> Vec<usize> {
 }
 
 pub fn generate(ctx: &mut Ctx) {
+    // 0. process-level state: which instantiation runs first in this process is drawn from the
+    //    seed (a cache initialised by the first call must not change later results; every one
+    //    of these ops is compared with the model and judged by the oracle like any other)
+    first_calls(ctx);
     // 1. exhaustive sub-space: every vector over 0..=alpha up to length maxlen, every k in 1..=kmax
     let (alpha, maxlen, kmax) = if ctx.quick() { (3i64, 5usize, 4usize) } else { (4, 6, 4) };
     for len in 0..=maxlen {
@@ -917,6 +1378,168 @@ pub fn generate(ctx: &mut Ctx) {
     // 4. parameter corners and large sizes
     corner_stream(ctx);
     large_stream(ctx);
+
+    // 5. special values (signed zero, subnormal and near-overflow magnitudes, i64 beyond 2^53)
+    special_stream(ctx);
+}
+
+// ------------------------------------------------------------------ special values
+
+fn first_calls(ctx: &mut Ctx) {
+    let ws = [5i64, 3, 3, 2, 2, 2, 1];
+    let p = vec![FILL; ws.len()];
+    let nz = vec![false; ws.len()];
+    let mut order = vec![
+        ("greedy_i64", greedy_op(false, 3, &ws, &p)),
+        ("greedy_f64", greedy_op(true, 3, &ws, &p)),
+        ("kk_i64_two_way", kk_op(2, false, &ws, &p)),
+        ("kk_real_two_way", format!("kkr 2 ids {}", fmt_arrays_nz(&ws, &nz, &p))),
+        ("kk_i64_k_way", kk_op(3, true, &ws, &p)),
+        ("kk_real_k_way", format!("kkr 3 loads {}", fmt_arrays_nz(&ws, &nz, &p))),
+        ("greedy_f64_inexact", greedyf_op(3, &[0.1, 0.2, 0.3, 0.7, 1.0 / 3.0], &vec![FILL; 5])),
+    ];
+    ctx.rng.shuffle(&mut order);
+    ctx.count(&format!("context:first_call_{}", order[0].0));
+    for (_, op) in order {
+        run_op(ctx, &op);
+    }
+}
+
+/// KarmarkarKarp on `coupe::Real` (op `kkr`), `-0` where `negz` says so; `cmp` decided like
+/// `emit_kk` (the classification looks at values only, and -0.0 == 0.0).
+fn emit_kkr(ctx: &mut Ctx, k: usize, ws: &[i64], negz: &[bool], p: &[usize]) {
+    let decisive = k >= 3 && ws.len() >= 2 && ws.len() == p.len();
+    let sens = decisive && kk_tie_sensitive(ws, k);
+    if decisive {
+        ctx.count(if sens { "kk_cmp_loads" } else { "kk_cmp_ids" });
+    } else {
+        ctx.count("kk_deterministic_ids");
+    }
+    let op = format!("kkr {} {} {}", k, if sens { "loads" } else { "ids" }, fmt_arrays_nz(ws, negz, p));
+    run_op(ctx, &op);
+}
+
+const EXTREME: [&str; 4] = ["subnormal", "subnormal_1e-310", "near_overflow", "min_normal_both_sides"];
+
+/// `f64` weights at the ends of the range (all finite, non-negative, with a finite total).
+fn extreme_weights(ctx: &mut Ctx, class: usize, n: usize) -> Vec<f64> {
+    match class {
+        // subnormal: bit patterns with a zero exponent field
+        0 => (0..n).map(|_| f64::from_bits(ctx.rng.range(1, 1 << 40) as u64)).collect(),
+        // e.g. 64 weights of 1e-310, a few doubled or halved
+        1 => (0..n)
+            .map(|_| match ctx.rng.usize(4) {
+                0 => 2e-310,
+                1 => 5e-311,
+                _ => 1e-310,
+            })
+            .collect(),
+        // one weight f64::MAX / 2, the others share ≈ 8.9e307: the total stays finite, and
+        // for many draws total × 1.01 would overflow
+        2 => {
+            let mut v = vec![f64::MAX / 2.0];
+            let rest = n.saturating_sub(1).max(1);
+            for _ in 0..rest {
+                let f = 0.95 + 0.05 * (ctx.rng.below(1000) as f64 / 1000.0);
+                v.push(8.9e307 * f / rest as f64);
+            }
+            ctx.rng.shuffle(&mut v);
+            v
+        }
+        // the smallest normal number, its neighbours and simple multiples on both sides
+        _ => (0..n)
+            .map(|_| {
+                let m = f64::MIN_POSITIVE;
+                match ctx.rng.usize(9) {
+                    0 => m,
+                    1 => f64::from_bits(m.to_bits() - 1),
+                    2 => f64::from_bits(m.to_bits() + 1),
+                    3 => m * 0.5,
+                    4 => m * 0.75,
+                    5 => m * 1.5,
+                    6 => m * 2.0,
+                    7 => m * 0.25,
+                    _ => f64::from_bits(m.to_bits() - 2),
+                }
+            })
+            .collect(),
+    }
+}
+
+fn special_stream(ctx: &mut Ctx) {
+    // signed zero: -0.0 weights (an odd and an even number of them) among small weights with
+    // ties, n above / equal to / below the part count; Greedy on f64 and KarmarkarKarp on Real
+    for round in 0..ctx.budget(90, 900) {
+        let k = *ctx.rng.pick(&[2usize, 2, 3, 3, 4, 5, 64]);
+        let n = match round % 3 {
+            0 => k + 1 + ctx.rng.usize(6),
+            1 => k,
+            _ => 1 + ctx.rng.usize(k.min(8) - 1),
+        };
+        let mut ws: Vec<i64> = (0..n).map(|_| ctx.rng.range(0, 4)).collect();
+        let mut negz = vec![false; n];
+        let want = if ctx.rng.chance(1, 8) { n } else { (1 + ctx.rng.usize(4)).min(n) };
+        let mut idx: Vec<usize> = (0..n).collect();
+        ctx.rng.shuffle(&mut idx);
+        for &i in idx.iter().take(want) {
+            ws[i] = 0;
+            negz[i] = true;
+        }
+        let p = initial_array(ctx, n);
+        let rel = if n > k { "n_gt_k" } else if n == k { "n_eq_k" } else { "n_lt_k" };
+        ctx.count(&format!("special:negzero_{}", rel));
+        if round % 2 == 0 {
+            ctx.count("special:negzero_greedy_f64");
+            let op = format!("greedy f64 {} {}", k, fmt_arrays_nz(&ws, &negz, &p));
+            run_op(ctx, &op);
+        } else {
+            ctx.count("special:negzero_kk_real");
+            emit_kkr(ctx, k, &ws, &negz, &p);
+        }
+    }
+    // KarmarkarKarp on Real without signed zeros: the float path of the tools
+    for _ in 0..ctx.budget(60, 600) {
+        let n = ctx.rng.usize(14);
+        let shape = *ctx.rng.pick(&[0usize, 1, 2, 4, 7]);
+        let ws = weights(ctx, shape, n);
+        let k = *ctx.rng.pick(&[1usize, 2, 2, 3, 4, 6]);
+        let p = initial_array(ctx, n);
+        ctx.count("special:kk_real");
+        emit_kkr(ctx, k, &ws, &vec![false; n], &p);
+    }
+    // subnormal and near-overflow magnitudes through Greedy on f64 (oracle: sequential LPT with
+    // the same additions; ids must survive scaling by an exact power of two), with a few -0.0
+    for round in 0..ctx.budget(60, 800) {
+        let class = round % EXTREME.len();
+        let n = if class == 1 && round % 8 == 1 { 64 } else { 2 + ctx.rng.usize(20) };
+        let mut ws = extreme_weights(ctx, class, n);
+        if ctx.rng.chance(1, 5) {
+            let i = ctx.rng.usize(ws.len());
+            ws[i] = -0.0;
+        }
+        let k = if ctx.rng.chance(1, 6) { *ctx.rng.pick(&CORNER_KS) } else { 2 + ctx.rng.usize(6) };
+        ctx.count(&format!("special:{}", EXTREME[class]));
+        let op = greedyf_op(k, &ws, &vec![FILL; ws.len()]);
+        run_op(ctx, &op);
+    }
+    // i64 weights at and above 2^53 that differ by less than the spacing of doubles there
+    // (2^53 + 1, + 2, + 3; 2^60 + 1, …): a conversion to f64 on the way in (tools entry point,
+    // another weight type) would turn them into ties
+    for round in 0..ctx.budget(40, 400) {
+        let base: i64 = if round % 2 == 0 { 1 << 53 } else { 1 << 60 };
+        let big = if base == 1 << 53 { 2 + ctx.rng.usize(9) } else { 2 + ctx.rng.usize(5) };
+        let mut ws: Vec<i64> = (0..big).map(|_| base + ctx.rng.range(-3, 6)).collect();
+        for _ in 0..ctx.rng.usize(6) {
+            ws.push(ctx.rng.range(0, 1000));
+        }
+        ctx.rng.shuffle(&mut ws);
+        let n = ws.len();
+        let k = *ctx.rng.pick(&[2usize, 2, 3, 4, n, n + 2]);
+        let p = vec![FILL; n];
+        ctx.count("special:i64_above_2^53_near_ties");
+        emit_greedy(ctx, false, k, &ws, &p);
+        emit_kk_auto(ctx, k, &ws, &p);
+    }
 }
 
 // ------------------------------------------------------------------ corner and large streams
